@@ -257,7 +257,7 @@ def main(argv=None):
             bounded_results.append(br)
             if br.get('status') == 'error':
                 undecided.append(('bounded/' + b.name, br.get('detail', '')[:300]))
-            for fl in br.get('failures', [])[:1]:
+            for fl in br.get('failures', [])[:6]:
                 kf = match_known(known, 'bounded/' + b.name, fl.get('case_id') or json.dumps(fl.get('input'), default=str))
                 if kf is not None:
                     known_hits.append((kf, 'bounded/' + b.name))
